@@ -415,8 +415,13 @@ impl PrettyPrint for TypeExpression {
                 lhs.pretty_print() + m::space() + m::operator("/") + m::space() + with_parens(rhs)
             }
             TypeExpression::Power(_, lhs, _, exp) => {
-                with_parens(lhs)
-                    + m::operator("^")
+                // a power of a power keeps its parentheses: `(Length^2)^3`
+                let base = if matches!(**lhs, TypeExpression::Power(..)) {
+                    m::operator("(") + lhs.pretty_print() + m::operator(")")
+                } else {
+                    with_parens(lhs)
+                };
+                base + m::operator("^")
                     + if exp.is_positive() && exp.is_integer() {
                         m::value(format_compact!("{exp}"))
                     } else {
